@@ -6,6 +6,8 @@
 extern "C" {
 #include "cstl/bintree.h"
 #include "cstl/rbtree.h"
+void vf_static_bintree(struct cstl_bintree *t, cstl_compare_func_t *cmp, void *priv, size_t off);
+void vf_static_rbtree(struct cstl_rbtree *t, cstl_compare_func_t *cmp, void *priv, size_t off);
 }
 using namespace vf;
 
@@ -119,7 +121,10 @@ struct Tree {
         next_id = 0;
         memset(&rt, 0xA5, sizeof rt);      // init must set every field itself
         memset(&bt, 0xA5, sizeof bt);
-        if (rb) cstl_rbtree_init(&rt, cmp_cb, &g_priv_token, offsetof(Elem, rn));
+        if ((g_case_hash >> 21) & 1) {       // the static initialiser macros instead of the init functions
+            if (rb) vf_static_rbtree(&rt, cmp_cb, &g_priv_token, offsetof(Elem, rn));
+            else vf_static_bintree(&bt, cmp_cb, &g_priv_token, boff);
+        } else if (rb) cstl_rbtree_init(&rt, cmp_cb, &g_priv_token, offsetof(Elem, rn));
         else cstl_bintree_init(&bt, cmp_cb, &g_priv_token, boff);
     }
     Elem *mk(int key)
